@@ -34,10 +34,12 @@ theorem step_inv (d : DState) (req : List String) (impl : String) (h : DInv d) :
           · rename_i h1 h2 h3
             intro _
             have h1 : wfB v.g = true := by simpa using h1
-            have h2 : (viewArcsOkB v && viewArcsB v) = true := by simpa using h2
+            have h2 : viewArcsB v = true := by
+              cases hb : viewArcsB v with
+              | true => rfl
+              | false => simp [hb] at h2
             have h3 : nbB v = true := by simpa using h3
-            simp only [Bool.and_eq_true] at h2
-            exact ⟨h2.2, h1, h3⟩
+            exact ⟨h2, h1, h3⟩
   all_goals (dsimp only; repeat' split) <;> exact h
 
 /-- the driver state after any sequence of protocol lines -/
@@ -81,7 +83,7 @@ theorem preFloat_scope {d : DState} (hd : DInv d) {s : Nat} (h : preFloat d s = 
 request, and — for `f64` — of `C11_spfa_values_exact_range` -/
 theorem preSpfa_scope {d : DState} (hd : DInv d) {ty : String} {s : Nat} (h : preSpfa d ty s = none) :
     viewArcsB d.v = true ∧ wfB d.v.g = true ∧ srcB d.v s = true ∧ nbB d.v = true ∧
-    fitSpfaB (measOf ty) d.v = true ∧ fitSpfaB (rangeOf ty) d.v = true := by
+    fitSpfaB (proofMeas ty) d.v = true ∧ fitSpfaB (rangeOf ty) d.v = true ∧ signOk ty d.v = true := by
   unfold preSpfa at h
   obtain ⟨h1, h2⟩ := or_none h
   obtain ⟨h2, h3⟩ := or_none h2
@@ -97,23 +99,51 @@ theorem preSpfa_scope {d : DState} (hd : DInv d) {ty : String} {s : Nat} (h : pr
     split at h3
     · rename_i hf
       simp only [Bool.and_eq_true] at hf
-      exact ⟨hv, hwf, hs, by simpa using hnb, hf.1, hf.2⟩
+      exact ⟨hv, hwf, hs, by simpa using hnb, hf.1.1, hf.1.2, hf.2⟩
     · cases h3
 
 /-- `fw <ty>` / `fwp <ty>` are judged only inside the scope of `C11_floyd_checked` (and of
 `C11_floyd_values_exact_range` for `f64`) -/
 theorem preFw_scope {d : DState} (hd : DInv d) {ty : String} (h : preFw d ty = none) :
-    wfB d.v.g = true ∧ fitFloydB (measOf ty) d.v = true ∧ fitFloydB (rangeOf ty) d.v = true := by
+    wfB d.v.g = true ∧ fitFloydB (proofMeas ty) d.v = true ∧ fitFloydB (rangeOf ty) d.v = true ∧
+    signOk ty d.v = true := by
   unfold preFw at h
   obtain ⟨h1, h2⟩ := or_none h
   obtain ⟨_, hwf, _⟩ := hd (okGraph_none h1)
   split at h2
   · rename_i hf
     simp only [Bool.and_eq_true] at hf
-    exact ⟨hwf, hf.1, hf.2⟩
+    exact ⟨hwf, hf.1.1, hf.1.2, hf.2⟩
   · cases h2
 
 theorem rangeOf_f64 : rangeOf "f64" = Meas.exactF64 := by simp [rangeOf]
+
+theorem rangeOf_f32 : rangeOf "f32" = Meas.exactF32 := by simp [rangeOf]
+
+/-- for every cost type that is not unsigned the width hypotheses are checked for the type itself -/
+theorem proofMeas_signed {ty : String} (h : unsignedTy ty = false) : proofMeas ty = measOf ty := by
+  simp [proofMeas, h]
+
+/-- `bf32 <s>` / `fnc32 <s>` are judged only inside the scope of `C11_bellman_ford_checked`,
+`C11_find_negative_cycle_checked` and `C11_bellman_ford_values_exact_range_f32` -/
+theorem preFloat32_scope {d : DState} (hd : DInv d) {s : Nat} (h : preFloat32 d s = none) :
+    viewArcsB d.v = true ∧ wfB d.v.g = true ∧ srcB d.v s = true ∧ fitBf32B d.v = true := by
+  unfold preFloat32 at h
+  obtain ⟨h1, h2⟩ := or_none h
+  obtain ⟨h2, h3⟩ := or_none h2
+  obtain ⟨hv, hwf, _⟩ := hd (okGraph_none h1)
+  refine ⟨hv, hwf, ?_, ?_⟩
+  · unfold srcCheck at h2
+    split at h2
+    · assumption
+    · cases h2
+  · cases hf : fitBf32B d.v with
+    | true => rfl
+    | false => rw [hf] at h3; simp at h3
+
+theorem step_bf32_blocked (d : DState) (s impl why : String) (h : preFloat32 d (s.toNat?.getD 0) = some why) :
+    (step d ["bf32", s] impl).2 = why ∧ (step d ["fnc32", s] impl).2 = why := by
+  simp only [step, h, and_self]
 
 /-- a failed pre-check IS the verdict: nothing is judged or compared outside the proved scope -/
 theorem step_bf_blocked (d : DState) (s impl why : String) (h : preFloat d (s.toNat?.getD 0) = some why) :
